@@ -72,6 +72,29 @@ def generate(g, tier):
         for t in deliveries(g, cmd, arg, is_int or arg in BOUNDARY_INT and arg not in BOUNDARY_STR):
             pre = 'STRING before\n' if g.chance(0.3) else ''
             cases.append(dict(op='compile', src=dict(text=pre + t), meta=dict(family='triple')))
+    # several different arguments in ONE invocation (grouped, first argument + group, $-evaluated): each one is validated on its
+    # own, whatever was accepted before it (equal-valued pairs such as 1/TRUE, 0/FALSE, 5/"5", 2/2.0 included)
+    PAIRS_INT = [('1', 'TRUE'), ('TRUE', '1'), ('0', 'FALSE'), ('5', '"5"'), ('2', '2.5'), ('3', '0-3'), ('1', '1==1'), ('0', '0-0'), ('7', '7'), ('1', '1.0')]
+    PAIRS_STR = [('a', 'ab'), ('esc', 'escx'), ('F4', 'F44'), ('a', 'a'), ('TAB', 'TA B'), ('1', '12345'), ('0065', '00065'), ('x', '')]
+    for _ in range(count(tier, 150, 1500)):
+        cmd = r.choice(VALIDATED)
+        is_int = cmd in DELAYS
+        a1, a2 = r.choice(PAIRS_INT if is_int else PAIRS_STR)
+        if g.chance(0.5): a1, a2 = a2, a1
+        e1, e2 = (a1, a2) if is_int else (quote(a1), quote(a2))
+        forms = [f'${cmd}\n    {e1}\n    {e2}', f'${cmd} {e1}\n    {e2}', f'${cmd}\n    {e1}\n    {e2}\n    {e1}',
+                 f'VAR p {e1}\nVAR q {e2}\n${cmd}\n    p\n    q', f'FUNC f p,q\n    ${cmd}\n        p\n        q\nRUN f {e1},{e2}']
+        if not is_int and a1.strip() and a2.strip(): forms += [f'{cmd}\n    {a1}\n    {a2}', f'{cmd} {a1}\n    {a2}']
+        for t in forms:
+            cases.append(dict(op='compile', src=dict(text=t), meta=dict(family='pair')))
+    # one, two or three leading `$`: only the single `$` form is the evaluated command; the others are unknown words
+    for _ in range(count(tier, 60, 600)):
+        cmd = r.choice(VALIDATED + ['STRING', 'STRINGLN', 'REM', 'ALTSTRING'])
+        arg = r.choice(['5', 'a', '"a"', '', '1+1'])
+        pre = r.choice(['$$', '$$$', '$ ', '$$ '])
+        t = f'{pre}{cmd if g.chance(0.6) else cmd.lower()} {arg}'.rstrip()
+        body = r.choice([t, f'REPEAT 2\n    {t}', f'FUNC f\n    {t}\nRUN f', f'{t}\n    {arg or "x"}'])
+        cases.append(dict(op='compile', src=dict(text=body), meta=dict(family='dollars')))
     # random programs: no unknown warning + no IGNORE => no DucklingScript-only keyword in the output
     for i in range(count(tier, 400, 4000)):
         c = g.case_general(i)
